@@ -380,6 +380,8 @@ class Scheduler:
         w = self.by_ident.get(_thread.get_ident())
         if w is None:
             raise MachineryError("a controlled lock was used by a thread the scheduler does not know")
+        if self.abort:                      # unwinding (e.g. the __exit__ of a `with lock:` while the run is abandoned)
+            raise SchedAbort()
         w.pending = (op, lock)
         self.wake.release()
         if not w.go.acquire(timeout=TIMEOUT * 4) or self.abort:
